@@ -47,7 +47,7 @@ ASSUMPTIONS = ["shape membership of the state's position (contains_point) is com
                "trajectories containing such states are outside the quantifier: correspondence with the model only, no oracle verdict",
                "a goal state that does not pass GoalRegion's validation (exact int time step, attributes other than the four) is "
                "rejected at construction and outside the quantifier; it appears only as a failing operation inside histories"]
-EXTRA_MODULES = ['CRProps.T16']      # translator tie: Gen.Src (regenerated from /repo every run) = hand model
+EXTRA_MODULES = ['CRProps.T16', 'CRProps.T08']      # translator tie: Gen.Src (regenerated from /repo every run) = hand model
 REQUIRED_BUCKETS = ["state/PMState", "state/KSState", "state/KSTState", "state/STState", "state/STDState", "state/MBState",
                     "state/ExtendedPMState", "state/InitialState", "state/CustomState", "state/LongitudinalState",
                     "state/LateralState", "state/InputState", "state/PMInputState", "state/LKSInputState",
